@@ -95,7 +95,18 @@ def write_source(fmt, path, cols, rgsize=None, hdu_index=1):
     elif fmt == "parquet":
         import pyarrow as pa
         import pyarrow.parquet as pq
-        pq.write_table(pa.table({k: np.asarray(v) for k, v in cols.items()}), path, row_group_size=rgsize)
+        tab = pa.table({k: np.asarray(v) for k, v in cols.items()})
+        if isinstance(rgsize, (list, tuple)):
+            # row groups of UNEQUAL sizes (a file written batch by batch): the given sizes in turn, cyclically
+            with pq.ParquetWriter(path, tab.schema) as wr:
+                pos, k = 0, 0
+                while pos < len(tab):
+                    step = max(1, int(rgsize[k % len(rgsize)]))
+                    wr.write_table(tab.slice(pos, step), row_group_size=step)
+                    pos += step
+                    k += 1
+        else:
+            pq.write_table(tab, path, row_group_size=rgsize)
     else:
         raise ValueError(fmt)
 
@@ -580,7 +591,11 @@ def specs(ctx):
                 spec["mode"] = "create"
                 spec["ncent"] = rng.choice([k for k in (1, 2, 3) if 2 * k <= n])
             if spec["fmt"] == "parquet":
-                spec["rgsize"] = rng.choice([1, max(1, cs - 1), cs, cs + 1, max(1, n)])
+                spec["rgsize"] = rng.choice([1, max(1, cs - 1), cs, cs + 1, max(1, n),
+                                             [2 * cs + 1, 1, 1], [cs + 2, 2, 1, cs], [n // 2 + 1, 1, 2], [3 * cs, cs - 1 or 1, 1, 1, 1],
+                                             [rng.randrange(1, cs + 2) for _ in range(rng.choice([3, 5, 7]))],
+                                             [rng.randrange(1, cs + 2) for _ in range(rng.choice([3, 5, 7]))],
+                                             [max(1, cs - 2), 1, 1, 2, 1]])
             out.append(spec)
     # a few runs on the real multiprocessing pool
     for k in range(ctx.n(5, 12)):
@@ -614,7 +629,8 @@ def matrix_specs(ctx):
                     pidpat=["shift", "random", "rownum", "beyond", "const"][k % 5] if k % 8 else "shift",
                     piddtype=rng.choice(["i8", "i8", "i4"]))
         if fmt == "parquet":
-            spec["rgsize"] = rng.choice([1, max(1, cs - 1), cs, cs + 1, max(1, n)])
+            spec["rgsize"] = rng.choice([1, max(1, cs - 1), cs, cs + 1, max(1, n), [2 * cs + 1, 1, 1], [cs + 2, 2, 1, cs], [n // 2 + 1, 1, 2],
+                                         [rng.randrange(1, cs + 2) for _ in range(rng.choice([3, 5, 7]))], [max(1, cs - 2), 1, 1, 2, 1]])
         pools = ["random", "reverse", "identity"]
         execs = [dict(workers=0, pool="identity", wvia="arg", progress=False, history=False),
                  dict(workers=0, pool="identity", wvia=rng.choice(["env", "cap"]), progress=True, history=rng.random() < 0.6),
